@@ -16,9 +16,9 @@ def run(ck):
         "NUL-free URLs (CGI variables are C strings)",
     ]
     ck.finish("exploration",
-              "generated application trees (depth 1..4, 1..6 handlers per node from 16 overlapping patterns incl. catch-alls and alternations, 0..6 selected capture groups in any order, method filters incl. regex methods, "
+              "generated application trees (depth 1..4, 1..6 handlers per node from 16 overlapping patterns incl. catch-alls and alternations, 0..6 selected capture groups in any order, method filters incl. regex methods; handlers registered through assign, assign_generic, map_generic and typed map() members taking int / std::string / char / (std::string,int), "
               "sub-applications mounted with colliding prefixes) x URLs drawn from, one edit away from (extra prefix/suffix, inserted newline, dropped character, doubled) and outside the pattern languages x 7 methods: the "
               "handler that ran and its arguments must equal the model's first full match in registration order, else 404; url_mapper output for every key (absolute, relative, '..') routed back from the root; "
               "mount_point::match on host/script/path triples. non-trivial = distinct trees",
               "evaluations_total", "trees", min_evals=50000,
-              required_nonzero=("dispatches_matched", "dispatches_404", "mapper_roundtrips", "mount_point_accepts"))
+              required_nonzero=("dispatches_matched", "dispatches_404", "mapper_roundtrips", "mount_point_accepts", "typed_handlers_registered", "typed_handlers_expected_b", "typed_handlers_expected_d", "typed_handlers_expected_ad", "typed_handlers_skipped_for_a_group_that_does_not_convert"))
